@@ -83,6 +83,10 @@ type c14World struct {
 	// is what went through that Write
 	wrapped bool
 	seen    []byte
+	// mounted: the application is served from inside a handler of another application, on that request's
+	// flamego.ResponseWriter, after that handler has already written "[" (so a status is out): the table
+	// decides what is appended and whether the chain goes on
+	mounted bool
 }
 
 type c14Wrap struct {
@@ -182,6 +186,9 @@ func (w *c14World) handler(shape string) flamego.Handler {
 // custom: "", "app" (mapped on the Flame), "request" (mapped by an earlier middleware)
 func c14Build(shape, position, custom string) *c14World {
 	w := &c14World{f: flamego.NewWithLogger(io.Discard), position: position, custom: custom}
+	if custom == "mounted" {
+		w.custom, w.mounted = "", true
+	}
 	if custom == "wrapped-writer" {
 		w.custom, w.wrapped = "", true
 		w.f.Use(func(c flamego.Context) {
@@ -444,12 +451,39 @@ func c14EvalM(w *c14World, shape string, v c14Vals, method string) (bad, kind st
 	var pan interface{}
 	func() {
 		defer func() { pan = recover() }()
+		if w.mounted {
+			outer := flamego.NewResponseWriter(method, spy)
+			_, _ = outer.Write([]byte("["))
+			w.f.ServeHTTP(outer, newReq(method, "/"))
+			return
+		}
 		w.f.ServeHTTP(spy, newReq(method, "/"))
 	}()
 	if pan != nil {
 		return fmt.Sprintf("ServeHTTP panicked: %v", pan), "panic", true
 	}
 	w.lastCode = spy.code
+	if w.mounted {
+		want := c14Table(shape, v, w.err(), w.bytes())
+		if !want.Defined {
+			return "", "", false
+		}
+		pre := "["
+		if method == "HEAD" {
+			pre, want.Body = "", ""
+		}
+		switch {
+		case want.Wrote && w.nextRan:
+			return fmt.Sprintf("mounted below a handler that had written: the value must be written (body %q) but the chain went on", want.Body), "chain-continued-after-write/mounted", true
+		case want.Wrote && spy.body.String() != pre+want.Body:
+			return fmt.Sprintf("mounted below a handler that had written %q: body %q, the table appends %q", pre, trunc(spy.body.String()), trunc(want.Body)), "wrong-response/mounted", true
+		case !want.Wrote && !w.nextRan:
+			return fmt.Sprintf("mounted below a handler that had written: a nil/empty/zero result writes nothing, so the chain goes on, but the next handler did not run (body %q)", spy.body.String()), "empty-result-stops-chain/mounted", true
+		case !want.Wrote && spy.body.String() != pre:
+			return fmt.Sprintf("mounted below a handler that had written: a nil/empty/zero result wrote %q", spy.body.String()), "empty-result-wrote/mounted", true
+		}
+		return "", "", true
+	}
 	if w.custom != "" {
 		// the registered return handler replaces the table: called once with the values, default writes nothing
 		wantN := 1
@@ -566,10 +600,10 @@ func c14Run(r *core.Run) {
 	if r.Thorough() {
 		r.SetBudget(10 * time.Minute)
 	}
-	r.Rule = "engine E: every supported return shape x every value (empty, nil, all 256 single bytes, 1 KiB, every status 100..999, nil / errors.New / struct / pointer-receiver errors, messages with percent signs and verbs, nil pointers) x position {first of two handlers, last before the action, application middleware} x {default table, custom ReturnHandler at application scope, at request scope, mapped late, default table below a middleware that maps http.ResponseWriter to an embedding writer with a Write of its own}; all values served in sequence on one instance, plus every two-request history (one value of each outcome class, then every value) on a fresh instance, and every cross-shape history (one value of each outcome class of every shape on one route, then one of each class of this shape on another route of the same instance, then the first again); oracle = the statement's table, 'wrote nothing' observed as 'the next handler ran'; non-trivial = value that is nil/empty/zero, an error, or a non-200 status"
+	r.Rule = "engine E: every supported return shape x every value (empty, nil, all 256 single bytes, 1 KiB, every status 100..999, nil / errors.New / struct / pointer-receiver errors, messages with percent signs and verbs, nil pointers) x position {first of two handlers, last before the action, application middleware} x {default table, custom ReturnHandler at application scope, at request scope, mapped late, default table below a middleware that maps http.ResponseWriter to an embedding writer with a Write of its own, default table in an application served from inside another application's handler on its flamego.ResponseWriter after that handler has written}; all values served in sequence on one instance, plus every two-request history (one value of each outcome class, then every value) on a fresh instance, and every cross-shape history (one value of each outcome class of every shape on one route, then one of each class of this shape on another route of the same instance, then the first again); oracle = the statement's table, 'wrote nothing' observed as 'the next handler ran'; non-trivial = value that is nil/empty/zero, an error, or a non-200 status"
 	r.Assumptions = []string{"a non-nil pointer to an empty value is not covered by the statement and is asserted neither way (counted)", "status codes outside 100..999 (what net/http accepts) are outside the quantifier", "'the response' is what the http.ResponseWriter mapped for the request is given: where a middleware has mapped a writer of its own, a rendered body goes through that writer's Write (as on the pinned tree, for every shape alike)"}
 	positions := []string{"first-of-two", "last", "middleware"}
-	customs := []string{"", "app", "request", "request-late", "app-late", "wrapped-writer"}
+	customs := []string{"", "app", "request", "request-late", "app-late", "wrapped-writer", "mounted"}
 	type job struct{ shape, pos, custom string }
 	var jobs []job
 	for _, s := range c14Shapes {
@@ -621,6 +655,8 @@ func c14Run(r *core.Run) {
 				switch {
 				case j.custom == "wrapped-writer":
 					l.Class("default-table-below-a-mapped-writer")
+				case j.custom == "mounted":
+					l.Class("default-table-mounted-below-a-handler-that-had-written")
 				case j.custom != "":
 					l.Class("custom-return-handler")
 				case world.nextRan:
